@@ -313,9 +313,9 @@ class Interp:
         if a is None or a["k"] != "mem":
             raise Unsupported(f"constant allocation {aid} is {a and a['k']}")
         data = bytes.fromhex(a["hex"].replace("__", "00"))
-        return self.decode(st, ty, data, a["ptrs"], off, meta)
+        return self.decode(st, ty, data, a["ptrs"], off, meta, aid=aid)
 
-    def decode(self, st, ty, data, ptrs, off=0, meta=None):
+    def decode(self, st, ty, data, ptrs, off=0, meta=None, aid=None):
         t = self.prog.ty(ty)
         tag = t.tag
         if tag in ("Int", "Uint", "Bool", "Char"):
@@ -350,7 +350,7 @@ class Interp:
         if tag == "Array":
             n = array_len(t)
             ety = t.arg[0]
-            return self.const_seq_bytes(st, ety, data, ptrs, off, n)
+            return self.const_seq_bytes(st, ety, data, ptrs, off, n, aid=aid)
         if tag == "Tuple":
             offs = self.field_offsets(t)
             return Ag(self.decode(st, ft, data, ptrs, off + o) for ft, o in zip(t.arg, offs))
